@@ -48,6 +48,7 @@ EXPECTED_PROBES = [
     "conc_get_overlaps_flush_all",
     "conc_switch_inside_critical_section",
     "conc_clock_moved_while_op_in_flight",
+    "conc_resize_overlaps_put",
 ]
 
 _R = None  # dns.resolver
@@ -263,12 +264,32 @@ def gen_case(seed, tier):
             else:
                 steps.append(_gen_op(rng, kind, nkeys))
         return {"prop": PROP, "seed": seed, "mode": "seq", "cfg": cfg, "steps": steps}
+    if kind == "lru" and rng.random() < 0.15:
+        # template: a limit change lands inside another thread's eviction loop; readers then
+        # observe which entries survived
+        nk = 5
+        cfg["nkeys"] = nk + 1
+        cfg["max_size"] = 5
+        pre = [["put", i, None, 60] for i in range(rng.choice([3, 4, 5]))]
+        small = rng.choice([0, 1, 2])
+        threads = [
+            [["resize", small], ["put", nk, None, 60]] + [["get", i] for i in rng.sample(range(len(pre)), 2)],
+            [["resize", rng.choice([4, 5, 9])]],
+            [["get", i] for i in rng.sample(range(len(pre)), min(3, len(pre)))],
+        ]
+        strat = {"kind": "random", "p_sync": rng.choice([0.3, 0.6]), "p_line": rng.choice([0.2, 0.5, 1.0]), "d": 2, "est_steps": 100, "victim": 0}
+        cfg["strategy"] = strat
+        return {"prop": PROP, "seed": seed, "mode": "conc", "cfg": cfg, "pre": pre, "rounds": [{"adv": 0, "threads": threads}], "schedule": None}
     rounds = []
     total = 0
     for _ in range(rng.choice([1, 2, 3])):
         threads = []
         for _ in range(rng.choice([2, 2, 3, 4])):
             ops = [_gen_op(rng, kind, nkeys) for _ in range(rng.choice([1, 2, 3, 5]))]
+            if kind == "lru" and rng.random() < 0.3:
+                # resizes racing with evicting puts
+                ops.insert(rng.randrange(len(ops) + 1), ["resize", rng.choice([0, 1, 2, 5])])
+                ops.insert(rng.randrange(len(ops) + 1), ["put", rng.randrange(nkeys), None, rng.choice([1, 5, 60])])
             if rng.random() < 0.35:
                 # the clock moves while operations are in flight (another thread's time passes)
                 ops.insert(rng.randrange(len(ops) + 1), ["adv", rng.choice([0.5, 1, 5, "to_exp"])])
@@ -554,6 +575,8 @@ def _run_conc(case, res, log):
                         res.probes.inc("conc_two_threads_same_key_put")
                     if a["op"][0] == "get" and b["op"][0] == "flushall":
                         res.probes.inc("conc_get_overlaps_flush_all")
+                    if a["op"][0] == "resize" and b["op"][0] == "put":
+                        res.probes.inc("conc_resize_overlaps_put")
         # a rough state for the next round's "to_exp": replay the model along real-time order is not
         # possible here (order unknown); the linearizability search below decides.
     for h in history:
